@@ -307,9 +307,10 @@ PLAN["C19"] = {
 _C20_ASAN_QUICK = ["c01.n2s2k2", "c01.trim.n2s3.a3b3", "c02.n2s3k2", "c03.n3s3pk3", "c03.n3afhk3", "c04.n2s3k4", "c04.n3s3pk3", "c05.n3s3pk3", "c06.n2s2k3", "c06.n2sAFk4", "c06.sparse.n2s2k3",
                    "c07.n2s2k2", "c07.trim.n3ah.a2b3", "c08.single.n2s2k3", "c08.pairs.trim.n2s2k3", "c08.hist.bu.d3", "c08.hist.td.d3", "c09.n2l1", "c10.single.n3l2k3", "c10.pairs.n2l1",
                    "c11.tree.d4", "c11.fa.d5", "c12.d5", "c14.n3s3pk2", "c15.n3s3pk3", "c15.n3afhk3", "c16.n3l2k4", "c16.family.n17n20", "c16.family.n65", "c17.v3.base", "c17.v3.apply2", "c17.v3.trees", "c17.v3.allfn", "c18.d3",
-                   "c13.text.len3", "c13.enc.tree.n2s2k3", "c13.enc.fa.n2l2k3", "c19.corpus.small.single", "c19.corpus.smaller.single"]
+                   "c13.text.len3", "c13.enc.tree.n2s2k3", "c13.enc.fa.n2l2k3", "c19.corpus.small.single", "c19.corpus.smaller.single",
+                   "c17.w2.apply2", "c17.w5.allfn", "c18.fanin", "c19.small.dup.n3agk3", "c19.small.single.trim.n3ahk3", "c13.enc.tree.names.n2k3", "c13.desc.names1.k2"]
 _C20_DIFF_QUICK = ["c01.n2s2k2", "c02.n2s3k2", "c03.n3s3pk3", "c05.n3s3pk3", "c06.n2s2k3", "c07.n2s2k2", "c08.single.n2s2k3", "c08.pairs.trim.n2s2k3", "c09.n2l1", "c10.single.n3l2k3", "c10.pairs.n2l1",
-                   "c14.n3s3pk2", "c15.n3s3pk3", "c16.n3l2k4", "c17.v3.apply2", "c04.n2s3k4"]
+                   "c14.n3s3pk2", "c15.n3s3pk3", "c16.n3l2k4", "c17.v3.apply2", "c04.n2s3k4", "c17.w5.allfn", "c19.small.dup.n3agk3"]
 PLAN["C20"] = {
     "level": "exploration",
     "rule": "the exhaustive workloads of C01-C19 (their small bounds in the quick tier, their quick bounds in the thorough tier) are re-run (1) in a build with AddressSanitizer + "
